@@ -81,7 +81,7 @@ Theorem c31_consume : forall maxstr gs args b s s1 o ev p t e,
 Proof. exact consume_then_free_is_error. Qed.
 
 (* the exported functions as they are in the source today (table regenerated on every run): all but the known list
-   check every handle, string, buffer and required out-parameter with a macro ... *)
+   (today: c2pa_free_string_array only) check every handle, string, buffer and required out-parameter with a macro ... *)
 Theorem c31_api_guarded : forall name f,
   In (name, f) api_table -> ~ In name known_unguarded -> fn_guarded f = true.
 Proof. exact api_guarded_except_known. Qed.
@@ -98,14 +98,28 @@ Theorem c31_api_bad_handle : forall name f k t args b s,
     (forallb (fun g => negb (is_untrack g)) (f_guards f) = true -> s' = s /\ own = []).
 Proof. exact api_bad_handle_rejected. Qed.
 
+(* the one optional handle parameter (asset of c2pa_builder_sign_data_hashed_embeddable): NULL is allowed, any
+   other pointer must be a live stream *)
+Theorem c31_api_bad_opt_handle : forall name f k t args b s,
+  In (name, f) api_table -> ~ In name known_unguarded ->
+  nth_error (f_params f) k = Some (PHandleOpt t) ->
+  argn args k <> 0 ->
+  validate (s_reg s) (argn args k) t <> ROk ->
+  exists s' c own,
+    step MAX_CSTRING_LEN s (CApi (f_guards f) args b) = (s', OErr c, map Consumed own) /\
+    c <> CSilent /\ c <> CBody /\ s_next s' = s_next s /\
+    (forall x e, lookup x (s_reg s') = Some e -> lookup x (s_reg s) = Some e) /\
+    (forallb (fun g => negb (is_untrack g)) (f_guards f) = true -> s' = s /\ own = []).
+Proof. exact api_bad_opt_handle_rejected. Qed.
+
 Theorem c31_api_no_ub : forall name f args b s s' o ev,
   In (name, f) api_table -> ~ In name known_unguarded ->
   step MAX_CSTRING_LEN s (CApi (f_guards f) args b) = (s', o, ev) -> o <> OUB.
 Proof. exact api_no_ub. Qed.
 
-(* the known class: a stream parameter dereferenced without a guard gives an unvalidated dereference for NULL and for
-   a foreign address, where the guarded form gives NullParameter / UntrackedPointer (replayed on the implementation
-   by ./check: corpus/C31.jsonl) *)
+(* the class repaired by fix 8b6120a89, about the old guard sequence: a stream parameter dereferenced without a guard
+   gives an unvalidated dereference for NULL and for a foreign address, where the guarded form (today's table) gives
+   NullParameter / UntrackedPointer; the sequences of corpus/C31.jsonl keep replaying it on the implementation *)
 Theorem c31_raw_stream_refuted :
   step MAX_CSTRING_LEN one_builder (CApi raw_stream_guards [500; 4; 0] BErr) = (one_builder, OUB, []) /\
   step MAX_CSTRING_LEN one_builder (CApi raw_stream_guards [500; 4; 777] BErr) = (one_builder, OUB, []) /\
